@@ -986,13 +986,18 @@ def _file_event(rng):
         reps.append(rp)
         cats[name] = px.BinaryCIFColumn(px.BinaryCIFData(to_numpy(A, rp[0])),
                                         None if not M else px.BinaryCIFData(to_numpy(M[0], rp[1])))
-    f = px.BinaryCIFFile({"b": px.BinaryCIFBlock({"c": px.BinaryCIFCategory(cats)})})
+    # names of the block and the category in several forms (a category's own name may begin with the
+    # underscore that the serialised form puts in front of every category name)
+    bn = rng.choice(["b", "b", "_b", "1ABC", "b_"])
+    cn = rng.choice(["c", "c", "_c", "__c", "c_x", "_c_", "C"])
+    f = px.BinaryCIFFile({bn: px.BinaryCIFBlock({cn: px.BinaryCIFCategory(cats)})})
 
     def operations(file):
         """0-4 operations on random columns: read accesses, in-place writes of the data / mask array, re-assignment;
         every serialize / write among them is read back."""
         hist, outs = [], []
-        cat = file["b"]["c"]
+        cat = file[list(file.keys())[0]]
+        cat = cat[list(cat.keys())[0]]
         for _ in range(rng.choice([0, 1, 2, 3, 4])):
             j = rng.randrange(len(cin))
             op = rng.choice(READ_OPS) if rng.random() < 0.55 else rng.choice(WRITE_OPS)
@@ -1012,24 +1017,27 @@ def _file_event(rng):
         file.write(buf)
         buf.seek(0)
         g = px.BinaryCIFFile.read(buf)
-        cat = g["b"]["c"]
+        bnames = [str(k) for k in g.keys()]
+        cnames = [str(k) for k in g[bnames[0]].keys()]
+        cat = g[bnames[0]][cnames[0]]
         cout = [{"name": k, "A": from_numpy(cat[k].data.array),
                  "M": [] if cat[k].mask is None else [from_numpy(cat[k].mask.array)]} for k in cat]
-        return g, cout, bool(g == file) and bool(file == g)
+        return g, cout, bool(g == file) and bool(file == g), [bnames, cnames]
 
     err = lambda e: [{"name": "<%s>" % type(e).__name__, "A": {"t": 0, "v": []}, "M": []}]  # noqa: E731
     ev = {"kind": "file", "cin": cin, "reps": reps, "hist": [], "outs": [], "werr": False, "cout": [], "eq": False,
-          "hist2": [], "outs2": [], "werr2": False, "cout2": [], "eq2": False}
+          "hist2": [], "outs2": [], "werr2": False, "cout2": [], "eq2": False,
+          "nm": [[bn], [cn]], "nm1": [[bn], [cn]], "nm2": [[bn], [cn]]}
     ev["hist"], ev["outs"] = operations(f)
     try:
-        g, ev["cout"], ev["eq"] = written(f)
+        g, ev["cout"], ev["eq"], ev["nm1"] = written(f)
     except Exception as e:  # noqa: BLE001
         ev["werr"] = True
         ev["cout"] = ev["cout2"] = err(e)
         return ev
     ev["hist2"], ev["outs2"] = operations(g)
     try:
-        _h, ev["cout2"], ev["eq2"] = written(g)
+        _h, ev["cout2"], ev["eq2"], ev["nm2"] = written(g)
     except Exception as e:  # noqa: BLE001
         ev["werr2"] = True
         ev["cout2"] = err(e)
@@ -1492,6 +1500,6 @@ def run(ctx):
 
 MANIFEST = {
     "technique": "TLA+ specification of the seven BinaryCIF encodings, their chains, BinaryCIFData serialisation and the candidate chains of compress() (specs/C05) model-checked by TLC; every enumerated (chain, array) case executed through BinaryCIFData.serialize -> msgpack -> deserialize; every case under every memory representation of its array; columns with masks under enumerated histories of read accesses, in-place writes and re-assignments with every serialisation in between read back; recorded random arrays, chains, compress() calls and files with access histories re-computed by TLC",
-    "level_text": "TLC enumerates integer arrays of every 8/16-bit type over their boundary values (length <=2, thorough 3, plus runs) and 32-bit arrays, float32/float64 arrays over dyadic values, NaN, infinities and large integers, and string arrays with empty and duplicate strings, each under the twelve chains compress() tries and explicit-parameter variants (narrow target types, wrong sizes, unsigned packing of negatives, given origins, fixed point with 4 factors, interval quantisation with 3 grids, string arrays with nested chains), and checks that the code-shaped model returns the array exactly / within half a fixed-point step / within the documented quantisation bin whenever the representation can hold it and refuses it otherwise, except in the two recorded classes; every case is then executed against the real encoders through msgpack and compared with the specification's outcome and acceptance interval. compress() is also enumerated as an operation: float32/float64 arrays (length <=2, thorough 3, optionally with a repeated tail) over decimal floats of every magnitude class from 1e-306 to 1e300 (more than 15 decimals, fractions, coordinates, the int32 boundary of the scaled values on both sides, one-sided overflow, zero, NaN, infinities, nine significant digits) x tolerances 1e-1..1e-8 (looser than, equal to and stricter than the default of compress()) and int32 arrays on the integer type boundaries, each case called at every container level (data, column, category, block, file); TLC checks that the modelled search for the decimals + int32 range check + lossless fall-back stays inside the relative tolerance, every case is executed through compress -> serialize -> (msgpack) -> deserialize and judged by TLC. Every enumerated case is executed under every memory representation the specification lists for its array (native, non-native byte order, strided, reversed, read-only, unaligned, all at once, 64-bit carrier, Python list), with one expectation; TLC checks that the code-shaped first encoding step does not depend on it outside one recorded class. Columns (int8/int32/float32/float64/string, 1-2 rows, every class of mask) are enumerated with every history of at most two operations - read accesses (as_array with five dtype choices with/without masked_value, as_item, serialize, compress, write), in-place writes of one / all rows of the data array or the mask array the column holds, re-assignment of the column: TLC checks that the code-shaped accessors never change the column and that every serialisation gives the content of its moment (the write operations so far applied to what was built) or is refused because of the string table an earlier serialisation left in the encoding; the driver performs the history, reads back every serialize / write / compress in it and the final file, and compares them and the column in memory with the specification's. Random arrays up to 60 elements of all dtypes in random representations with random chains and parameters, compress() at random container levels with tolerances 1e-1..1e-8 (fixed-point universe and decimal floats of any magnitude) and whole files with masks (0-4 random read accesses, in-place writes and re-assignments before writing, and on the file read back before writing it again, every column serialisation in between read back) are recorded and re-computed by TLC.",
+    "level_text": "TLC enumerates integer arrays of every 8/16-bit type over their boundary values (length <=2, thorough 3, plus runs) and 32-bit arrays, float32/float64 arrays over dyadic values, NaN, infinities and large integers, and string arrays with empty and duplicate strings, each under the twelve chains compress() tries and explicit-parameter variants (narrow target types, wrong sizes, unsigned packing of negatives, given origins, fixed point with 4 factors, interval quantisation with 3 grids, string arrays with nested chains), and checks that the code-shaped model returns the array exactly / within half a fixed-point step / within the documented quantisation bin whenever the representation can hold it and refuses it otherwise, except in the two recorded classes; every case is then executed against the real encoders through msgpack and compared with the specification's outcome and acceptance interval. compress() is also enumerated as an operation: float32/float64 arrays (length <=2, thorough 3, optionally with a repeated tail) over decimal floats of every magnitude class from 1e-306 to 1e300 (more than 15 decimals, fractions, coordinates, the int32 boundary of the scaled values on both sides, one-sided overflow, zero, NaN, infinities, nine significant digits) x tolerances 1e-1..1e-8 (looser than, equal to and stricter than the default of compress()) and int32 arrays on the integer type boundaries, each case called at every container level (data, column, category, block, file); TLC checks that the modelled search for the decimals + int32 range check + lossless fall-back stays inside the relative tolerance, every case is executed through compress -> serialize -> (msgpack) -> deserialize and judged by TLC. Every enumerated case is executed under every memory representation the specification lists for its array (native, non-native byte order, strided, reversed, read-only, unaligned, all at once, 64-bit carrier, Python list), with one expectation; TLC checks that the code-shaped first encoding step does not depend on it outside one recorded class. Columns (int8/int32/float32/float64/string, 1-2 rows, every class of mask) are enumerated with every history of at most two operations - read accesses (as_array with five dtype choices with/without masked_value, as_item, serialize, compress, write), in-place writes of one / all rows of the data array or the mask array the column holds, re-assignment of the column: TLC checks that the code-shaped accessors never change the column and that every serialisation gives the content of its moment (the write operations so far applied to what was built) or is refused because of the string table an earlier serialisation left in the encoding; the driver performs the history, reads back every serialize / write / compress in it and the final file, and compares them and the column in memory with the specification's. Random arrays up to 60 elements of all dtypes in random representations with random chains and parameters, compress() at random container levels with tolerances 1e-1..1e-8 (fixed-point universe and decimal floats of any magnitude) and whole files with masks (0-4 random read accesses, in-place writes and re-assignments before writing, and on the file read back before writing it again, every column serialisation in between read back) are recorded and re-computed by TLC. Whole-file events name the block and the category in several forms (leading, doubled and trailing underscores, digits, upper case) and the names read back are judged by the specification.",
     "level_note": "Bounded: exhaustive only for arrays of <=2 (thorough 3) elements over boundary value sets; longer arrays only through recorded runs. Floats are restricted to dyadic values on which float arithmetic is exact (plus NaN/inf/large integers); fixed-point factors <=1000. Delta / IntegerPacking arithmetic crossing +-2^31, UINT32 values >= 2^31 and int64 input are not decided (TLC integers are 32 bit). The encoded byte form is compared with the model as a diagnostic only. Histories longer than 2 (thorough 3: read-only histories and histories with a write operation in the middle) operations and columns longer than 2 (3) rows only through recorded runs; the values an accessor returns are not judged. Recorded defects (unchecked float->int32 cast in FixedPoint, IntervalQuantization outside [min,max], Delta on a uint64 array with an element below the origin; all in encoding.pyx) are accepted only in their predicted shape; the four defects of compress() (unchecked cast reached through compress(), endless search for the decimals beyond the float range, factor 10^d >= 2^64 not serialisable, float32 range check at 2^31) are repaired in /repo, their predicates are FALSE and the situations they occurred in are still required to be enumerated. compress() of floats is judged on decimal floats where float rounding noise cannot change the number of decimals chosen (other arrays are skipped, counted); which of fixed point / raw bytes compress() picks is not modelled. Trusted: TLC, the TLA+ value parser, the float<->fixed-point projection, numpy, msgpack.",
 }
